@@ -1,23 +1,35 @@
 """C19 - content negotiation (Encoding.parse ordering, Encoding.match, get_encoder/get_decoder choice,
 Generic.receive/respond errors; CSV codec round trip as an auxiliary observation).
 
-model:        specs/Negotiation.tla  (header read range by range, preference order, Match, EncoderSet/DecoderSet,
-                                      as-is first-in-table choice; the swapped-loop rule is refuted by TLC)
+model:        specs/Negotiation.tla  (header read range by range, preference order, Match - the kind of a pattern is a
+                                      glob over the text of the kind -, EncoderSet/DecoderSet, as-is first-in-table
+                                      choice; the swapped-loop rule is refuted by TLC)
+              specs/NegotiationRequest.tla  (the request level: Content-Type x optional Accept header; the response is
+                                      negotiated over the client's Accept list alone, the decoder over the content type)
 spec -> code: every header TLC enumerates (<= MaxLen ranges over the constants; 4-5 ranges by TLC simulation in the
               thorough tier) is rendered into several spellings and run through the real Encoding.parse /
               get_encoder / get_decoder / Generic.respond / Generic.receive; TLC's exported expectations decide.
-              The (pattern, concrete) Match table exported by TLC is compared with Encoding.match.
+              The (pattern, concrete) Match table exported by TLC is compared with Encoding.match.  One run ranges over
+              kinds AROUND the supported ones (longer / shorter at either end, wildcards inside a component).
+              Every (content type, Accept header) pair of NegotiationRequest.tla is turned into a layout.Request the way
+              the gateways do it, pickled (the hop to the engine's process pool), and answered by
+              application.Generic.receive / .respond(outcome, request.accept, ...); a part of them additionally goes
+              through the rest.Apply route (Starlette test client; 415 = the unsupported-encoding error).
 code -> spec: seeded random headers from a wider grammar (1..5 ranges, more kinds/options/q-values) are run on the real
-              code first; the recorded observations are judged by specs/TraceNegotiation.tla (one TLC run per batch).
+              code first (kinds incl. random edits of the supported ones, random (content type, Accept) requests);
+              the recorded observations are judged by specs/TraceNegotiation.tla (one TLC run per batch).
 
 Excluded in the generators because the property is silent on them: q=0 (RFC: "not acceptable"; forml ranks it last),
 malformed q values / empty ranges (trailing commas) / quoted-string parameter values, duplicate option keys inside one
 range, wildcards on the concrete side of match and in a Content-Type, case variations of option VALUES (compared
-verbatim), non-ASCII.  Only glob '*' is used in kinds (no '?', '[').
+verbatim), non-ASCII.  Only glob '*' is used in kinds (no '?', '['); every kind is of the form type "/" subtype.
+A request without an Accept header: the property does not say what the response is encoded in (as-is: the encoding of
+the request; tracked as drift only).
 """
-import itertools
+import concurrent.futures
 import json
 import os
+import pickle
 import random
 
 from harness import common, tlc
@@ -184,6 +196,58 @@ class Real:
                 res['receive'] = 1 if ok else 3
         return res
 
+    # ---- the request level: Content-Type + optional Accept -> layout.Request -> Generic.receive / respond
+    def serve(self, request, receive=True):
+        """What the serving engine does with a request (minus the model): receive, then respond over request.accept."""
+        obs = {'receive': NOT_OBSERVED}
+        context = None
+        if receive:
+            got, err = self._outcome(lambda: self.app.receive(request))
+            if err is UNSUP:
+                obs['receive'] = 0
+            elif err:
+                obs['receive'] = 2  # decoder found but it could not read CSV bytes (a JSON decoder) - not judged
+            else:
+                context = got.context
+                ok = got.context == {'params': {'p': '1'}} and rows_of(got.entry) == [[1, 'x'], [2, 'y']]
+                obs['receive'] = 1 if ok else 3
+        pay, err = self._outcome(lambda: self.app.respond(self.outcome, request.accept, context))
+        if err:
+            obs['reply'] = err
+        elif not isinstance(pay.data, bytes) or not pay.data:
+            obs['reply'] = {'t': '?', 's': 'payload', 'opts': []}
+        else:
+            obs['reply'] = abstract(pay.encoding)
+            obs['payload'] = pay
+        return obs
+
+    def exchange(self, ctype, accept, receive=True):
+        """Header values -> request as the gateways build it (content type = most preferred entry of Content-Type,
+        accept = the parsed Accept header if there is one) -> pickled like on the way to the engine -> served."""
+        layout = self.layout
+        request, err = self._outcome(lambda: layout.Request(
+            CSV_BYTES, layout.Encoding.parse(ctype)[0], {'p': '1'}, layout.Encoding.parse(accept) if accept else None))
+        if not err:
+            request, err = self._outcome(lambda: pickle.loads(pickle.dumps(request)))
+        if err:
+            return {'receive': NOT_OBSERVED + 1, 'reply': err}
+        obs = self.serve(request, receive)
+        obs.pop('payload', None)
+        return obs
+
+    def rest(self):
+        """The rest.Apply route over self.serve (None when the REST provider is not importable here)."""
+        if not hasattr(self, '_rest'):
+            try:
+                self._rest = Rest(self)
+            except Exception:  # pylint: disable=broad-except
+                self._rest = None  # provider (or its web framework) not usable here: the route is not observed
+        return self._rest
+
+    def close(self):
+        if getattr(self, '_rest', None):
+            self._rest.close()
+
     def match(self, pat, con):
         """Encoding.match on the real objects: True / False, or the name of the exception it raised."""
         try:
@@ -192,7 +256,107 @@ class Real:
             return type(exc).__name__
 
 
+class Rest:
+    """One request through forml.provider.gateway.rest.Apply (Starlette test client, no sockets): the route turns the
+    HTTP headers into the layout.Request, our handler serves it with Real.serve and keeps what it saw."""
+
+    def __init__(self, real):
+        from starlette import applications, testclient
+        from forml.provider.gateway import rest
+        layout = real.layout
+        self.seen = None
+
+        async def handler(_, request):
+            self.seen = obs = real.serve(request)
+            if obs['receive'] == 0 or obs['reply'] is UNSUP:
+                raise layout.Encoding.Unsupported('c19')
+            return layout.Response(obs.get('payload') or layout.Payload(b'?', request.payload.encoding), 'c19')
+
+        self.ctx = testclient.TestClient(applications.Starlette(routes=[rest.Apply(handler)]))
+        self.client = self.ctx.__enter__()
+
+    def close(self):
+        self.ctx.__exit__(None, None, None)
+
+    def exchange(self, ctype, accept):
+        """POST with the given header values ('' = the header left empty: the test client would otherwise add its own
+        Accept) -> observation of the handler + the HTTP status."""
+        self.seen = None
+        try:
+            resp = self.client.post('/c19?p=1', content=CSV_BYTES, headers={'content-type': ctype, 'accept': accept or ''})
+            status = resp.status_code
+        except Exception as exc:  # pylint: disable=broad-except
+            status = type(exc).__name__
+        obs = dict(self.seen or {'receive': NOT_OBSERVED + 1, 'reply': {'t': '?', 's': 'route', 'opts': []}})
+        obs.pop('payload', None)
+        obs['status'] = status
+        return obs
+
+
 # ----------------------------------------------------------------------------------------------- spec -> code
+def judge_request(exp, obs, encoders):
+    """TLC's expectation (one exported state of NegotiationRequest.tla) against one served request."""
+    bad, drift = [], 0
+    allowed = [key(encoders[e - 1]) for e in exp['enc']]
+    fits = key(obs['reply']) == key(UNSUP) if not allowed else key(obs['reply']) in allowed
+    if not fits and exp['judged']:
+        bad.append(('respond', f'response over request.accept came as {show([obs["reply"]])}, allowed by the Accept header: '
+                               f'{show([encoders[e - 1] for e in exp["enc"]]) or "Unsupported"}'))
+    elif not fits:
+        drift += 1  # no Accept header: the property is silent
+    if obs['receive'] != NOT_OBSERVED and ((obs['receive'] == 0) != (not exp['dec']) or obs['receive'] not in (0, 1, 2)):
+        bad.append(('receive', f'Generic.receive outcome {obs["receive"]} (0=Unsupported 1=ok 2=other error 3=wrong entry) '
+                               f'but decoders allowed: {exp["dec"] or "none"}'))
+    if 'status' in obs and not bad and exp['judged']:
+        refused = not exp['dec'] or not exp['enc']
+        if http_ok(obs['status']) == refused and (refused or obs['receive'] == 1):
+            bad.append(('rest', f'HTTP status {obs["status"]} but the unsupported-encoding error is '
+                                f'{"" if refused else "not "}due'))
+    return bad, drift
+
+
+def http_ok(status):
+    """The route answered with a success (the unsupported-encoding error has to come as an HTTP error, as-is 415)."""
+    return isinstance(status, int) and 200 <= status < 300
+
+
+def replay_requests(chk, real, res, rnd, stats):
+    """Every (content type, Accept header) state exported by one NegotiationRequest.tla run on the real code."""
+    states, seen_receive = 0, set()
+    for line in res.printed:
+        try:
+            exp = json.loads(line)
+        except ValueError:
+            continue
+        if not isinstance(exp, dict) or 'req' not in exp:
+            continue
+        states += 1
+        spell = rnd if states % 2 else None
+        ctype = render([dict(exp['ctype'], q=NOQ)], spell)
+        accept = render(exp['hdr'], spell) if exp['hdr'] else None
+        # the decoder is chosen from the content type: observed for every content type with each length of Accept
+        rkey = (key(exp['ctype']), len(exp['hdr']))
+        runs = [(False, real.exchange(ctype, accept, receive=rkey not in seen_receive))]
+        seen_receive.add(rkey)
+        if states % 8 == 1 and real.rest():
+            runs.append((True, real.rest().exchange(ctype, accept)))
+            stats['rest'] += 1
+        failed = False
+        for via_rest, obs in runs:
+            bad, drift = judge_request(exp, obs, stats['encoders'])
+            stats['drift'] += drift
+            stats['requests'] += 1
+            for clause, what in bad:
+                failed = True
+                chk.fail(f'{clause}: request Content-Type {ctype!r} Accept {accept!r}{" via rest.Apply" if via_rest else ""}: {what}',
+                         {'kind': 'request', 'ctype': ctype, 'accept': accept, 'expected': exp, 'rest': via_rest})
+        if not failed:
+            chk.validated()
+            if states % 977 == 5:
+                chk.sample({'content_type': ctype, 'accept': accept, 'response': show([runs[0][1]['reply']])})
+    return states
+
+
 def judge(exp, obs, encoders, full):
     """TLC's expectation (one exported state of Negotiation.tla) against one observation. Returns (failures, drift)."""
     bad, drift = [], 0
@@ -228,11 +392,14 @@ def show(encs):
     return ', '.join(f'{e["t"]}/{e["s"]}' + ''.join(f';{k}={v}' for k, v in sorted(map(tuple, e['opts']))) for e in encs)
 
 
-def cfg_neg(path, maxlen, kinds, opts, qs, rule='pattern-outer', export=1, invariants=INVARIANTS):
+def cfg_neg(path, maxlen, kinds, opts, qs, rule='pattern-outer', export=1, invariants=INVARIANTS, spec='Spec', more=''):
     with open(path, 'w') as fh:
-        fh.write(f'SPECIFICATION Spec\nCONSTANTS MaxLen = {maxlen}\n Kinds <- {kinds}\n OptSets <- {opts}\n Qs <- {qs}\n'
+        fh.write(f'SPECIFICATION {spec}\nCONSTANTS MaxLen = {maxlen}\n Kinds <- {kinds}\n OptSets <- {opts}\n Qs <- {qs}\n{more}'
                  f' Rule = "{rule}"\n ExportFrom = {export}\nINVARIANTS {invariants}\nCHECK_DEADLOCK FALSE\n')
     return path
+
+
+REQ_INVARIANTS = 'RTypeOK ReplyIgnoresContentType ReplyFromClientList UnsupportedIffNoRange DefaultReply RExport'
 
 
 def replay_model(chk, real, res, rnd, spellings, stats):
@@ -308,6 +475,45 @@ FORMATS = ['pandas-records', 'pandas-split', 'pandas-columns', 'pandas-index', '
 QPOOL = [1000, 900, 800, 750, 500, 330, 100, 10, 1]
 
 
+SUPPORTED = [('application', 'json'), ('text', 'csv')]
+TAILS = ['l', 's', '5', '-seq', '+xml', '.v2', 'x']
+HEADS = ['x', 'x-', 'my', 'v.']
+
+
+def edited_kind(rnd, stars=True):
+    """A kind near a supported one: characters added / dropped at either end of a component and (stars) wildcards put
+    in place of a (possibly empty) run of characters; both the patterns that still fit the supported kind and the
+    ones that just do not are frequent."""
+    comps = list(rnd.choice(SUPPORTED))
+    for _ in range(rnd.choice((0, 1, 1, 2))):
+        i = rnd.randrange(2)
+        op = rnd.randrange(4)
+        if op == 0:
+            comps[i] += rnd.choice(TAILS)
+        elif op == 1:
+            comps[i] = rnd.choice(HEADS) + comps[i]
+        elif op == 2 and len(comps[i]) > 2:
+            comps[i] = comps[i][:-rnd.randint(1, 2)]
+        elif len(comps[i]) > 2:
+            comps[i] = comps[i][rnd.randint(1, 2):]
+    for _ in range(rnd.choice((0, 1, 1, 2)) if stars else 0):
+        i = rnd.randrange(2)
+        a = rnd.randint(0, len(comps[i]))
+        b = min(len(comps[i]), a + rnd.choice((0, 0, 1, 2, 9)))
+        comps[i] = comps[i][:a] + '*' + comps[i][b:]
+    return comps[0], comps[1]
+
+
+def instance_of(rnd, kind):
+    """A concrete kind the pattern fits (each wildcard filled with a short run) - or, half of the time, nearly fits."""
+    fill = ['', '', 'a', 'son', 'pplication', 'x-', 'sv', 'ext']
+    comps = [''.join(rnd.choice(fill) if ch == '*' else ch for ch in comp) for comp in kind]
+    if rnd.random() < 0.5:
+        i = rnd.randrange(2)
+        comps[i] = (comps[i] + rnd.choice(TAILS)) if rnd.random() < 0.5 else (rnd.choice(HEADS) + comps[i])
+    return comps[0] or 'a', comps[1] or 'b'
+
+
 def random_opts(rnd, rich=False):
     opts = []
     if rnd.random() < (0.7 if rich else 0.45):
@@ -323,19 +529,67 @@ def random_header(rnd):
     """1..5 media ranges; q drawn from a small per-header palette so that ties are frequent."""
     if rnd.random() < 0.3:  # content-type like: one concrete range
         t, s = rnd.choice(CONCRETE[:3] if rnd.random() < 0.8 else CONCRETE)
+        if rnd.random() < 0.3:
+            t, s = edited_kind(rnd, stars=False)
         return [{'t': t, 's': s, 'opts': random_opts(rnd, True), 'q': rnd.choice([NOQ, NOQ, 1000, 500])}]
     palette = [NOQ] + rnd.sample(QPOOL, rnd.randint(1, 3)) + ([rnd.randint(1, 1000)] if rnd.random() < 0.3 else [])
     hdr = []
+    near = rnd.random() < 0.25  # a header whose kinds are (mostly) near misses / inner wildcards of the supported ones
     for _ in range(rnd.randint(1, 5)):
-        t, s = rnd.choice(KINDS[:6] if rnd.random() < 0.7 else KINDS)
+        if near and rnd.random() < 0.8:
+            t, s = edited_kind(rnd)
+        else:
+            t, s = rnd.choice(KINDS[:6] if rnd.random() < 0.7 else KINDS)
         hdr.append({'t': t, 's': s, 'opts': random_opts(rnd), 'q': rnd.choice(palette)})
     return hdr
 
 
+def random_content_type(rnd):
+    """One concrete range without q: an encoding some codec produces / reads, the same with other options, a near miss
+    of a supported kind, an unknown kind."""
+    pick = rnd.random()
+    if pick < 0.35:
+        t, s = rnd.choice(SUPPORTED)
+        opts = [['format', rnd.choice(FORMATS[:6])]] if s == 'json' and rnd.random() < 0.8 else []
+    elif pick < 0.6:
+        (t, s), opts = rnd.choice(CONCRETE[:3]), random_opts(rnd, True)
+    elif pick < 0.8:
+        (t, s), opts = edited_kind(rnd, stars=False), random_opts(rnd)
+    else:
+        (t, s), opts = rnd.choice(CONCRETE), random_opts(rnd, True)
+    return {'t': t, 's': s, 'opts': opts, 'q': NOQ}
+
+
+def random_request(rnd):
+    """(content type, Accept header or [] for none); a good share of the Accept headers name nothing supported."""
+    ctype = random_content_type(rnd)
+    pick = rnd.random()
+    if pick < 0.12:
+        return ctype, []
+    if pick < 0.5:
+        unsup = [('foo', 'bar'), ('text', 'plain'), ('application', 'xml'), ('image', '*'), ('text', 'html')]
+        hdr = []
+        for _ in range(rnd.randint(1, 4)):
+            roll = rnd.random()
+            if roll < 0.6:
+                (t, s), opts = rnd.choice(unsup), random_opts(rnd)
+            elif roll < 0.8:
+                (t, s), opts = rnd.choice(SUPPORTED), [['format', 'bogus']] + ([['version', '1']] if rnd.random() < 0.3 else [])
+            else:
+                (t, s), opts = edited_kind(rnd), random_opts(rnd)
+            hdr.append({'t': t, 's': s, 'opts': opts, 'q': rnd.choice([NOQ, NOQ, 900, 800, 500])})
+        return ctype, hdr
+    return ctype, random_header(rnd)
+
+
 def random_pair(rnd):
-    t, s = rnd.choice(KINDS)
-    ct, cs = rnd.choice(CONCRETE) if rnd.random() < 0.5 else ((t if t != '*' else rnd.choice(['application', 'text'])),
-                                                              (s if s != '*' else rnd.choice(['json', 'csv', 'plain'])))
+    if rnd.random() < 0.5:  # kinds as texts: a pattern near a supported kind against an instance / a near instance
+        t, s = edited_kind(rnd)
+        ct, cs = instance_of(rnd, (t, s)) if rnd.random() < 0.7 else edited_kind(rnd, stars=False)
+    else:
+        t, s = rnd.choice(KINDS)
+        ct, cs = rnd.choice(CONCRETE) if rnd.random() < 0.5 else ((t if t != '*' else rnd.choice(['application', 'text'])),
+                                                                  (s if s != '*' else rnd.choice(['json', 'csv', 'plain'])))
     popts = random_opts(rnd, True)
     copts = [list(o) for o in popts if rnd.random() < 0.8] if rnd.random() < 0.7 else random_opts(rnd, True)
     have = {k for k, _ in copts}
@@ -343,6 +597,10 @@ def random_pair(rnd):
     if rnd.random() < 0.15 and copts:  # same key, other value
         copts[0] = [copts[0][0], copts[0][1] + 'x']
     return {'t': t, 's': s, 'opts': popts}, {'t': ct, 's': cs, 'opts': copts}
+
+
+def strip_q(rng):
+    return {k: v for k, v in rng.items() if k != 'q'}
 
 
 def random_table(rnd):
@@ -376,8 +634,9 @@ def csv_roundtrip(real, kinds, rows):
     return {'src': src, 'out': out, 'encoding': payload.encoding.header}
 
 
-def trace_validation(chk, real, rnd):
-    n_hdr, n_pair, n_tab = (4000, 3000, 150) if chk.quick else (40000, 20000, 1000)
+def trace_validation(chk, real, rnd, pool):
+    """Records the observations, hands them to TLC (in the pool) and returns the function that collects the verdicts."""
+    n_hdr, n_pair, n_tab, n_req = (4000, 3000, 150, 600) if chk.quick else (40000, 20000, 1000, 12000)
     traces, texts, seen = [], [], set()
     while len(traces) < n_hdr:
         hdr = random_header(rnd)
@@ -397,6 +656,25 @@ def trace_validation(chk, real, rnd):
             chk.fail(f'match: pattern {show([p])} vs {show([c])} raised {got}', {'kind': 'match', 'p': p, 'c': c, 'm': None})
             continue
         pairs.append({'p': p, 'c': c, 'm': got})
+    requests, reqtexts, seen = [], [], set()
+    while len(requests) < n_req:
+        ctype, hdr = random_request(rnd)
+        spell = rnd if rnd.random() < 0.5 else None
+        texts_ = render([ctype], spell), (render(hdr, spell) if hdr else None)
+        if texts_ in seen:
+            continue
+        seen.add(texts_)
+        via_rest = len(requests) % 5 == 0 and real.rest() is not None
+        obs = real.rest().exchange(*texts_) if via_rest else real.exchange(*texts_, receive=len(requests) % 3 == 0)
+        status = obs.pop('status', None)
+        refused = obs['receive'] == 0 or obs['reply'] is UNSUP
+        if via_rest and http_ok(status) == refused:  # the route has to surface the error the application raised
+            chk.fail(f'rest: request Content-Type {texts_[0]!r} Accept {texts_[1]!r}: HTTP status {status} although the '
+                     f'application {"raised" if refused else "did not raise"} the unsupported-encoding error',
+                     {'kind': 'request', 'ctype': texts_[0], 'accept': texts_[1], 'expected': None, 'rest': True,
+                      'abstract': {'ct': strip_q(ctype), 'accept': hdr}})
+        requests.append(dict(obs, ct=strip_q(ctype), accept=hdr))
+        reqtexts.append(texts_ + (via_rest,))
     tables, tabmeta = [], []
     for _ in range(n_tab):
         kinds, rows = random_table(rnd)
@@ -427,58 +705,91 @@ def trace_validation(chk, real, rnd):
     ]
     bad_pairs = [('match_ignores_option_value', {'p': spl, 'c': rec, 'm': True}),
                  ('match_ignores_wildcard', {'p': {'t': 'text', 's': '*', 'opts': []}, 'c': csv, 'm': False})]
+    bad_pairs += [('match_prefix_only', {'p': jsn, 'c': dict(jsn, s='jsonl'), 'm': True}),
+                  ('match_suffix_only', {'p': csv, 'c': dict(csv, t='x-text'), 'm': True}),
+                  ('match_inner_wildcard_ignored', {'p': dict(jsn, s='j*n'), 'c': jsn, 'm': False})]
+    foo = {'t': 'foo', 's': 'bar', 'opts': []}
+    bad_requests = [  # (name, flag index, observation)
+        ('request_encoding_served_despite_accept', 0, {'ct': csv, 'accept': [dict(foo, q=NOQ)], 'reply': csv, 'receive': 1}),
+        ('request_encoding_preferred_to_accept', 0, {'ct': csv, 'accept': [dict(foo, q=NOQ), dict(spl, q=500)], 'reply': csv,
+                                                    'receive': NOT_OBSERVED}),
+        ('request_decoder_from_accept', 1, {'ct': foo, 'accept': [dict(csv, q=NOQ)], 'reply': csv, 'receive': 1}),
+    ]
     bad_table = {'src': [[1, 2], [3, 4], [5, 6]], 'out': [[1, 2], [3, 4], [5, 7]]}  # one cell came back different
     batch = {'traces': traces + [c[2] for c in corrupted], 'matches': pairs + [p[1] for p in bad_pairs],
-             'tables': tables + [{'src': bad_table['src'], 'out': bad_table['out']}]}
+             'tables': tables + [{'src': bad_table['src'], 'out': bad_table['out']}],
+             'requests': requests + [r[2] for r in bad_requests]}
     path = common.write_json(batch, 'c19-batch.json')
-    res = chk.tlc('TraceNegotiation', 'TraceNegotiation.cfg', workers=1, env={'TRACE_FILE': path},
-                  require=['Read', 'Judge'], timeout=1500)
-    verdicts = {v[0]: v for v in res.tuples('VERDICT')}
-    matches = {v[0]: v for v in res.tuples('MATCH')}
-    tabs = {v[0]: v for v in res.tuples('TABLE')}
-    if len(verdicts) != len(batch['traces']) or len(matches) != len(batch['matches']) or len(tabs) != len(batch['tables']):
-        raise tlc.MachineryError(f'TraceNegotiation: verdict count mismatch {len(verdicts)}/{len(matches)}/{len(tabs)}')
-    clauses = ['parse', 'encoder', 'decoder', 'respond', 'receive']
-    drift = 0
-    for i, (text, tr) in enumerate(zip(texts, traces), start=1):
-        _, want, reg = verdicts[i]
-        if reg[0] != want or len(reg) != 8:
-            raise tlc.MachineryError(f'trace {i} ({text!r}) was not replayed to the end by TraceNegotiation: {reg}')
-        flags = reg[1:]
-        drift += (1 - flags[5]) + (1 - flags[6])
-        broken = [c for c, f in zip(clauses, flags) if not f]
-        if broken:
-            chk.fail(f'{"+".join(broken)}: header {text!r}: observed parsed={show(tr["parsed"])} encoder={show([tr["enc"]])} '
-                     f'decoder={tr["dec"]} respond={show([tr["respond"]])} receive={tr["receive"]} rejected by TraceNegotiation',
-                     {'kind': 'trace', 'header': text, 'abstract': tr['hdr']})
-        else:
-            chk.validated()
-            if i % 997 == 1:
-                chk.sample({'observed_header': text, 'parsed': show(tr['parsed']), 'encoder': show([tr['enc']])})
-    for j, (name, flag, _) in enumerate(corrupted, start=len(traces) + 1):
-        _, want, reg = verdicts[j]
-        chk.selftest(f'trace_{name}', reg[0] == want and reg[1 + flag] == 0)
-    for i, pair in enumerate(pairs, start=1):
-        _, model, code = matches[i]
-        if model != code:
-            chk.fail(f'match: pattern {show([pair["p"]])} vs {show([pair["c"]])} gave {code}, TLC says {model}',
-                     {'kind': 'match', 'p': pair['p'], 'c': pair['c'], 'm': model})
-        else:
-            chk.validated()
-    for j, (name, _) in enumerate(bad_pairs, start=len(pairs) + 1):
-        chk.selftest(f'trace_{name}', matches[j][1] != matches[j][2])
-    aux_bad = 0
-    for i, meta in enumerate(tabmeta, start=1):
-        if not tabs[i][1]:
-            aux_bad += 1
-            chk.fail(f'csv round trip: table kinds={meta["kinds"]} rows={meta["rows"]} came back different ({meta["encoding"]})',
-                     {'kind': 'table', 'kinds': meta['kinds'], 'rows': meta['rows']})
-        else:
-            chk.validated()
-    chk.selftest('trace_roundtrip_corrupted_cell', not tabs[len(tables) + 1][1])
-    chk.extra['code_to_spec'] = {'headers': len(traces), 'match_pairs': len(pairs), 'csv_roundtrips': len(tables),
-                                 'csv_roundtrip_failures': aux_bad, 'impl_drift': drift}
-    return drift
+    run = pool.submit(chk.tlc, 'TraceNegotiation', 'TraceNegotiation.cfg', workers=1, env={'TRACE_FILE': path},
+                      require=['Read', 'Judge'], timeout=1500)
+
+    def judge_batch():
+        """TLC's verdicts on the recorded observations (TLC has been judging them in the background)."""
+        res = run.result()
+        verdicts = {v[0]: v for v in res.tuples('VERDICT')}
+        matches = {v[0]: v for v in res.tuples('MATCH')}
+        tabs = {v[0]: v for v in res.tuples('TABLE')}
+        reqs = {v[0]: v for v in res.tuples('REQUEST')}
+        if len(verdicts) != len(batch['traces']) or len(matches) != len(batch['matches']) or len(tabs) != len(batch['tables']) \
+                or len(reqs) != len(batch['requests']):
+            raise tlc.MachineryError(f'TraceNegotiation: verdict count mismatch {len(verdicts)}/{len(matches)}/{len(tabs)}/{len(reqs)}')
+        clauses = ['parse', 'encoder', 'decoder', 'respond', 'receive']
+        drift = 0
+        for i, (text, tr) in enumerate(zip(texts, traces), start=1):
+            _, want, reg = verdicts[i]
+            if reg[0] != want or len(reg) != 8:
+                raise tlc.MachineryError(f'trace {i} ({text!r}) was not replayed to the end by TraceNegotiation: {reg}')
+            flags = reg[1:]
+            drift += (1 - flags[5]) + (1 - flags[6])
+            broken = [c for c, f in zip(clauses, flags) if not f]
+            if broken:
+                chk.fail(f'{"+".join(broken)}: header {text!r}: observed parsed={show(tr["parsed"])} encoder={show([tr["enc"]])} '
+                         f'decoder={tr["dec"]} respond={show([tr["respond"]])} receive={tr["receive"]} rejected by TraceNegotiation',
+                         {'kind': 'trace', 'header': text, 'abstract': tr['hdr']})
+            else:
+                chk.validated()
+                if i % 997 == 1:
+                    chk.sample({'observed_header': text, 'parsed': show(tr['parsed']), 'encoder': show([tr['enc']])})
+        for j, (name, flag, _) in enumerate(corrupted, start=len(traces) + 1):
+            _, want, reg = verdicts[j]
+            chk.selftest(f'trace_{name}', reg[0] == want and reg[1 + flag] == 0)
+        for i, pair in enumerate(pairs, start=1):
+            _, model, code = matches[i]
+            if model != code:
+                chk.fail(f'match: pattern {show([pair["p"]])} vs {show([pair["c"]])} gave {code}, TLC says {model}',
+                         {'kind': 'match', 'p': pair['p'], 'c': pair['c'], 'm': model})
+            else:
+                chk.validated()
+        for j, (name, _) in enumerate(bad_pairs, start=len(pairs) + 1):
+            chk.selftest(f'trace_{name}', matches[j][1] != matches[j][2])
+        for i, (req, (ctype, accept, via_rest)) in enumerate(zip(requests, reqtexts), start=1):
+            _, reply_ok, receive_ok, as_is = reqs[i]
+            drift += 1 - as_is
+            broken = [c for c, f in zip(('respond', 'receive'), (reply_ok, receive_ok)) if not f]
+            if broken:
+                chk.fail(f'{"+".join(broken)}: request Content-Type {ctype!r} Accept {accept!r}{" via rest.Apply" if via_rest else ""}: '
+                         f'observed response {show([req["reply"]])} receive={req["receive"]} rejected by TraceNegotiation',
+                         {'kind': 'request', 'ctype': ctype, 'accept': accept, 'expected': None, 'rest': via_rest,
+                          'abstract': {'ct': req['ct'], 'accept': req['accept']}})
+            else:
+                chk.validated()
+        for j, (name, flag, _) in enumerate(bad_requests, start=len(requests) + 1):
+            chk.selftest(f'trace_{name}', reqs[j][1 + flag] == 0)
+        aux_bad = 0
+        for i, meta in enumerate(tabmeta, start=1):
+            if not tabs[i][1]:
+                aux_bad += 1
+                chk.fail(f'csv round trip: table kinds={meta["kinds"]} rows={meta["rows"]} came back different ({meta["encoding"]})',
+                         {'kind': 'table', 'kinds': meta['kinds'], 'rows': meta['rows']})
+            else:
+                chk.validated()
+        chk.selftest('trace_roundtrip_corrupted_cell', not tabs[len(tables) + 1][1])
+        chk.extra['code_to_spec'] = {'headers': len(traces), 'match_pairs': len(pairs), 'csv_roundtrips': len(tables),
+                                     'requests': len(requests), 'requests_via_rest': sum(1 for r in reqtexts if r[2]),
+                                     'csv_roundtrip_failures': aux_bad, 'impl_drift': drift}
+        return drift
+
+    return judge_batch
 
 
 # ----------------------------------------------------------------------------------------------- main
@@ -488,38 +799,75 @@ def main(chk):
     rnd = random.Random(chk.seed)
     tmp = os.getcwd()
     real = Real()
-    stats = {'drift': 0, 'headers': 0, 'pairs': 0, 'encoders': None, 'sampled': set()}
+    stats = {'drift': 0, 'headers': 0, 'pairs': 0, 'encoders': None, 'sampled': set(), 'requests': 0, 'rest': 0}
     acts = ['AddDefault', 'AddWeighted']
     spellings = 3 if chk.quick else 6
     workers = int(os.environ.get('VERIF_WORKERS') or 8)  # TLC workers of the exhaustive runs
+    # TLC works in the background while this thread runs the real code: the two large models one after the other
+    # (`workers` threads each), the small ones and the judging of the recorded observations next to them
+    large = concurrent.futures.ThreadPoolExecutor(1)
+    pool = concurrent.futures.ThreadPoolExecutor(2)
+    full_run = large.submit(chk.tlc, 'Negotiation', cfg_neg(os.path.join(tmp, 'full2.cfg'), 2, 'KindsFull', 'OptsFull', 'QsFull'),
+                            require=acts, workers=workers)
+    kinds, opts, qs = ('KindsFull', 'OptsSmall', 'QsSmall') if chk.quick else ('KindsFull', 'OptsMid', 'QsSmall')
+    three_run = large.submit(chk.tlc, 'Negotiation', cfg_neg(os.path.join(tmp, 'three.cfg'), 3, kinds, opts, qs, export=3),
+                             require=acts, workers=workers)
+    if not chk.quick:
+        sim_run = large.submit(chk.tlc, 'Negotiation',
+                               cfg_neg(os.path.join(tmp, 'sim5.cfg'), 5, 'KindsFull', 'OptsFull', 'QsFull', export=4),
+                               simulate='num=50', depth=6, seed=chk.seed + 1, workers=4, coverage=False, timeout=900)
+    glob_run = pool.submit(chk.tlc, 'Negotiation',
+                           cfg_neg(os.path.join(tmp, 'glob.cfg'), 2, 'KindsGlob', 'OptsSmall', 'QsOne' if chk.quick else 'QsTwo'),
+                           require=acts[:1] if chk.quick else acts, workers=2)
+    req_run = pool.submit(chk.tlc, 'NegotiationRequest',
+                          cfg_neg(os.path.join(tmp, 'request.cfg'), 2 if chk.quick else 3, 'KindsReq', 'OptsSmall', 'QsReq',
+                                  export=2, invariants=REQ_INVARIANTS, spec='RSpec',
+                                  more=' CtKinds <- CtKindsReq\n CtOpts <- CtOptsReq\n'),
+                          require=['RAddDefault', 'RAddWeighted'], workers=2 if chk.quick else 4)
+    swapped_run = pool.submit(chk.tlc, 'Negotiation',
+                              cfg_neg(os.path.join(tmp, 'swapped.cfg'), 2, 'KindsSmall', 'OptsSmall', 'QsSmall',
+                                      rule='encoder-outer', export=0), expect_ok=False, workers=2, coverage=False)
+    large.shutdown(wait=False)
 
     # ---- 1. spec -> code: all headers of <= 2 ranges over the full constants (+ the Match table, + codec tables)
-    res = chk.tlc('Negotiation', cfg_neg(os.path.join(tmp, 'full2.cfg'), 2, 'KindsFull', 'OptsFull', 'QsFull'),
-                  require=acts, workers=workers)
+    res = full_run.result()
     exported = replay_model(chk, real, res, rnd, spellings, stats)
-    if exported != res.distinct - 1 or not stats['pairs']:
-        raise tlc.MachineryError(f'Negotiation export incomplete: {exported} of {res.distinct - 1} states, {stats["pairs"]} pairs')
-    # ---- 2. all headers of 3 ranges over reduced constants (interplay of three ranges: ties among three, first match)
-    kinds, opts, qs = ('KindsFull', 'OptsSmall', 'QsSmall') if chk.quick else ('KindsFull', 'OptsMid', 'QsSmall')
-    res = chk.tlc('Negotiation', cfg_neg(os.path.join(tmp, 'three.cfg'), 3, kinds, opts, qs, export=3),
-                  require=acts, workers=workers)
+    pairs = stats['pairs']
+    if exported != res.distinct - 1 or not pairs:
+        raise tlc.MachineryError(f'Negotiation export incomplete: {exported} of {res.distinct - 1} states, {pairs} pairs')
+    # ---- 2. code -> spec: the observations are recorded now, TLC judges them while the other models are replayed
+    judge_batch = trace_validation(chk, real, rnd, pool)
+    pool.shutdown(wait=False)
+    # ---- 3. all headers of <= 2 ranges over kinds AROUND the supported ones (a character more or less at either end of
+    #         a component, wildcards inside a component) + the Match table over those kinds
+    res = glob_run.result()
+    near = replay_model(chk, real, res, rnd, spellings, stats)
+    if near != res.distinct - 1 or stats['pairs'] == pairs:
+        raise tlc.MachineryError(f'Negotiation export (near kinds) incomplete: {near} of {res.distinct - 1} states')
+    exported += near
+    # ---- 4. the request level: every content type x every Accept header of <= 2 (thorough: 3) ranges, served
+    res = req_run.result()
+    served = replay_requests(chk, real, res, rnd, stats)
+    if served != res.distinct:
+        raise tlc.MachineryError(f'NegotiationRequest export incomplete: {served} of {res.distinct} states')
+    # ---- 5. all headers of 3 ranges over reduced constants (interplay of three ranges: ties among three, first match)
+    #         (the largest model, replayed last: TLC needs the time)
+    res = three_run.result()
     exported += replay_model(chk, real, res, rnd, spellings, stats)
-    # ---- 3. thorough: 4-5 ranges over the full constants, behaviours drawn by TLC's simulator (the simulator evaluates
+    # ---- 6. thorough: 4-5 ranges over the full constants, behaviours drawn by TLC's simulator (the simulator evaluates
     #         the invariants - hence Export - on EVERY successor of the states it walks through: one behaviour exports
     #         2 x |Ranges| headers sharing a random prefix; num is per worker)
     if not chk.quick:
-        res = chk.tlc('Negotiation', cfg_neg(os.path.join(tmp, 'sim5.cfg'), 5, 'KindsFull', 'OptsFull', 'QsFull', export=4),
-                      simulate='num=50', depth=6, seed=chk.seed + 1, workers=4, coverage=False, timeout=900)
+        res = sim_run.result()
         sim = replay_model(chk, real, res, rnd, spellings, stats)
         if sim < 1000:
             raise tlc.MachineryError(f'simulation exported only {sim} headers')
         chk.extra['simulated_headers_4_5_ranges'] = sim
         exported += sim
-    # ---- 4. the model tells the implementation rules apart: swapped loops are refuted
-    res = chk.tlc('Negotiation', cfg_neg(os.path.join(tmp, 'swapped.cfg'), 2, 'KindsSmall', 'OptsSmall', 'QsSmall',
-                                         rule='encoder-outer', export=0), expect_ok=False, workers=2, coverage=False)
+    # ---- 7. the model tells the implementation rules apart: swapped loops are refuted
+    res = swapped_run.result()
     chk.selftest('model_refutes_encoder_outer_loop', res.violated == 'ImplEncoderRefines')
-    # ---- 5. the python-side comparison rejects corrupted observations of the real code
+    # ---- 8. the python-side comparison rejects corrupted observations of the real code
     exp = {'hdr': [], 'parsed': [{'t': 'text', 's': 'csv', 'opts': []}, {'t': 'application', 's': 'json', 'opts': []}],
            'enc': [7], 'ienc': 7, 'conc': True, 'dec': [8], 'idec': 8}
     good = {'parsed': exp['parsed'], 'enc': exp['parsed'][0], 'dec': 8, 'respond': exp['parsed'][0], 'receive': 1}
@@ -530,15 +878,30 @@ def main(chk):
     chk.selftest('replay_rejects_other_decoder', bool(judge(exp, dict(good, dec=7), stats['encoders'], True)[0]))
     chk.selftest('replay_rejects_swallowed_unsupported',
                  bool(judge(dict(exp, enc=[], ienc=0), good, stats['encoders'], True)[0]))
+    exp = {'judged': True, 'enc': [], 'dec': [8]}  # text/csv sent, only foo/bar accepted
+    good = {'reply': UNSUP, 'receive': 1, 'status': 415}
+    if judge_request(exp, good, stats['encoders'])[0]:
+        raise tlc.MachineryError(f'self-test baseline rejected: {judge_request(exp, good, stats["encoders"])}')
+    chk.selftest('request_rejects_own_encoding_served', bool(judge_request(exp, dict(good, reply=stats['encoders'][6]), stats['encoders'])[0]))
+    chk.selftest('request_rejects_missing_415', bool(judge_request(exp, dict(good, status=200), stats['encoders'])[0]))
+    chk.selftest('request_rejects_undecodable_accepted', bool(judge_request(dict(exp, dec=[]), good, stats['encoders'])[0]))
 
-    # ---- 6. code -> spec
-    drift = trace_validation(chk, real, rnd)
+    # ---- 9. the verdicts of TLC on the observations recorded in 2
+    drift = judge_batch()
 
+    real.close()
     chk.extra['spec_to_code'] = {'headers_exported_by_tlc': exported, 'header_spellings_run': stats['headers'],
+                                 'headers_over_near_kinds': near, 'requests_exported_by_tlc': served,
+                                 'requests_served': stats['requests'], 'requests_via_rest_route': stats['rest'],
                                  'match_pairs': stats['pairs'], 'spellings_per_header': spellings}
     chk.extra['impl_model_drift'] = {'choices_not_predicted_by_first_in_table_rule': stats['drift'] + drift}
     chk.assume('q=0, malformed q, empty ranges, quoted-string values, duplicate option keys in one range and wildcards in a '
                'Content-Type / on the concrete side of match are outside the property (excluded in the generators)')
+    chk.assume('a kind is type "/" subtype; the kind of a pattern is a glob over that text in which only "*" is special')
+    chk.assume('a request without an Accept header: the encoding of the response is not judged (as-is default = the '
+               'encoding of the request, drift only); the gateway glue is observed as layout.Request built from the parsed '
+               'headers + a pickle round trip, and through the rest.Apply route with a handler of ours'
+               + ('' if real.rest() else ' (REST provider not importable here: route NOT observed)'))
     chk.assume('option values are compared verbatim (case sensitive); kinds and parameter names are case-insensitive')
     chk.assume('the supported codec set is the ENCODERS/DECODERS tables of forml.io.layout._codec (checked against the '
                'constants of Negotiation.tla on every run); decoder identity is observed through that table')
@@ -568,10 +931,33 @@ def replay(chk, path):
         obs = csv_roundtrip(real, rep['kinds'], rep['rows'])
         print('observed now:', obs)
         return 1 if obs['src'] != obs['out'] else 0
+    if rep['kind'] == 'request':
+        obs = real.rest().exchange(rep['ctype'], rep['accept']) if rep.get('rest') and real.rest() else \
+            real.exchange(rep['ctype'], rep['accept'])
+        print('observed now:', json.dumps({k: v for k, v in obs.items()}))
+        if rep.get('expected'):
+            bad, _ = judge_request(rep['expected'], obs, _model_encoders())
+            print('failing clauses now:', bad)
+            return 1 if bad else 0
+        status = obs.pop('status', None)
+        if rep.get('rest') and http_ok(status) == (obs['receive'] == 0 or obs['reply'] == UNSUP):
+            print('the HTTP status does not tell what the application did')
+            return 1
+        csv = {'t': 'text', 's': 'csv', 'opts': []}  # (TraceNegotiation wants at least one header trace: a dummy)
+        dummy = {'hdr': [dict(csv, q=NOQ)], 'parsed': [csv], 'enc': csv, 'dec': NOT_OBSERVED,
+                 'respond': {'t': '-', 's': '', 'opts': []}, 'receive': NOT_OBSERVED}
+        path = common.write_json({'traces': [dummy], 'matches': [], 'tables': [],
+                                  'requests': [dict(obs, ct=rep['abstract']['ct'], accept=rep['abstract']['accept'])]},
+                                 'c19-replay.json')
+        res = tlc.run('TraceNegotiation', 'TraceNegotiation.cfg', workers=1, env={'TRACE_FILE': path}, coverage=False)
+        verdict = res.tuples('REQUEST')[0]
+        print('verdict of TraceNegotiation (index, response ok, receive ok, as-is default):', verdict)
+        return 1 if 0 in verdict[1:3] else 0
     if rep['kind'] == 'trace':
         obs = real.header(rep['header'], full=True)
         obs.pop('error', None)
-        path = common.write_json({'traces': [dict(obs, hdr=rep['abstract'])], 'matches': [], 'tables': []}, 'c19-replay.json')
+        path = common.write_json({'traces': [dict(obs, hdr=rep['abstract'])], 'matches': [], 'tables': [], 'requests': []},
+                                 'c19-replay.json')
         res = tlc.run('TraceNegotiation', 'TraceNegotiation.cfg', workers=1, env={'TRACE_FILE': path}, coverage=False)
         verdict = res.tuples('VERDICT')[0]
         print('observed now:', json.dumps(obs), 'verdict', verdict)
